@@ -1,9 +1,11 @@
 """Fail-closed translators: /repo working tree -> coq/Generated/*.v (rewritten on every run)."""
-from . import eetable, aligntables
+from . import eetable, aligntables, dnaiotables, orders
 
 ALL = [
     ("EETable.v", eetable.generate),
     ("Tables.v", aligntables.gen_tables),
     ("Flags.v", aligntables.gen_flags),
     ("Scores.v", aligntables.gen_scores),
+    ("Complement.v", dnaiotables.gen_complement),
+    ("Orders.v", orders.generate),
 ]
